@@ -123,6 +123,10 @@ func genC18(t *rapid.T) c18Case {
 				p["code"] = rapid.SampledFrom([]interface{}{5.0, true, M{"x": 1.0}}).Draw(t, l+".illtypedcode")
 			case 2:
 				p["code"] = "((("
+			case 4:
+				// code as an array of lines (documented for multi-line
+				// scripts, as in a rule's action)
+				p["code"] = A{"var a = 1 // one", "a + 1"}
 			case 3:
 				// a script that needs a library of the location's control
 				p["code"] = "answer() + 1"
@@ -410,6 +414,17 @@ func c18Direct(s *sys.System, r c18Req, gens map[string]bool) c18Result {
 		return c18Result{true, fmt.Sprint(id, en)}
 	case "js":
 		code, ok := str("code")
+		if lines, isLines := p["code"].(A); isLines {
+			// lines of code
+			code, ok = "", true
+			for _, l := range lines {
+				ls, isStr := l.(string)
+				if !isStr {
+					return fail
+				}
+				code += ls + "\n"
+			}
+		}
 		if !ok {
 			return fail
 		}
